@@ -313,6 +313,16 @@ def ddmin(ops, test, budget=400):
     return cur, calls[0]
 
 
+def clean_replays(prop):
+    """replay files are outputs of the current run only"""
+    d = os.path.join(VERIF, "replays", prop)
+    try:
+        for f in os.listdir(d):
+            os.unlink(os.path.join(d, f))
+    except OSError:
+        pass
+
+
 def load_known_findings():
     p = os.path.join(VERIF, "known_findings.json")
     try:
